@@ -1301,7 +1301,7 @@ def f_unique(a, return_index=False, return_inverse=False, return_counts=False, a
             r = numpy.unique(unbox(a), return_index=return_index, return_inverse=return_inverse,
                              return_counts=return_counts, axis=axis)
         if isinstance(r, tuple):
-            return (box(r[0], a._vd if a._vd == _OBJ else None),) + tuple(r[1:])
+            return (box(r[0], a._vd if a._vd == _OBJ else None),) + tuple(box(x) for x in r[1:])
         return box(r, a._vd if a._vd == _OBJ else None)
     if axis is not None:
         raise EngineUnsupported("unique with axis on symbolic")
@@ -1319,11 +1319,11 @@ def f_unique(a, return_index=False, return_inverse=False, return_counts=False, a
         inv[i] = len(vals) - 1
     out = [SymArray(mkobj(vals), a._vd)]
     if return_index:
-        out.append(numpy.array(idx, dtype=numpy.intp))
+        out.append(box(numpy.array(idx, dtype=numpy.intp)))
     if return_inverse:
-        out.append(numpy.array(inv, dtype=numpy.intp).reshape(a.shape))
+        out.append(box(numpy.array(inv, dtype=numpy.intp).reshape(a.shape)))
     if return_counts:
-        out.append(numpy.array(cnt, dtype=numpy.intp))
+        out.append(box(numpy.array(cnt, dtype=numpy.intp)))
     return tuple(out) if len(out) > 1 else out[0]
 
 
